@@ -66,6 +66,15 @@ def execute(ex: Execution, wname: str, backend: str, idle_timeout: float, yieldi
         e.loop.create_task(boot())
         sends: list[Any] = []
         state = {"scripts_added": 0}
+        # observation only: the statuses written to the handler row, in order (root-cause context for the oracle below)
+        status_writes: list[str] = []
+        _orig_update = store.update
+
+        async def _logged_update(handler: Any) -> None:
+            status_writes.append(handler.status)
+            await _orig_update(handler)
+
+        store.update = _logged_update  # type: ignore[method-assign]
 
         def on_quiescent(h: Any) -> None:
             idle_announcements = sum(1 for ev in h.published if isinstance(ev, WorkflowIdleEvent))
@@ -124,6 +133,19 @@ def execute(ex: Execution, wname: str, backend: str, idle_timeout: float, yieldi
         if started > len(ih.RELEASES) + 1:
             v.append(("more_than_one_resumer_per_release", w, f"{desc}: {started} control loops started for {len(ih.RELEASES)} releases"))
         released_busy = any(_busy_kind(r) != "none" for r in ih.RELEASES)
+        # update_handler_status() is read-modify-write: with a store whose read suspends, a row read before the run ended can
+        # be written back after the terminal status (recorded finding); everything that follows from it carries this flag
+        first_terminal = next((i for i, st in enumerate(status_writes) if st in ("completed", "failed", "cancelled")), None)
+        stale_overwrite = first_terminal is not None and any(st == "running" for st in status_writes[first_terminal + 1:])
+        # ... and the idle flag can be stale the other way round (recorded C03 / C26 findings: idle announced while an event is
+        # already on its way): the release then aborts a run that is just finishing - its last tick (with the StopEvent
+        # result) is persisted, the terminal status never written, and the next event restarts the finished log from scratch
+        ended_in_log = any(td.get("type") == "step_result" and any(
+            r.get("type") == "result" and "StopEvent" in str((r.get("result") or {}).get("qualified_name", "")) for r in td.get("result", []))
+            for td in ticks)
+        aborted_while_finishing = bool(ih.RELEASES) and ended_in_log and first_terminal is None
+        if yielding:
+            w = {**w, "terminal_status_overwritten_by_stale_row": stale_overwrite, "release_aborted_run_while_it_finished": aborted_while_finishing}
         for i, t_sent, task in sends:
             out = task_outcome(task)
             if out[0] != "result":
@@ -139,6 +161,10 @@ def execute(ex: Execution, wname: str, backend: str, idle_timeout: float, yieldi
             if out[0] != "result":
                 v.append(("send_event_failed", {**w, "exc": type(out[1]).__name__ if out[1] is not None else out[0]}, f"{desc}: send D#{uid} ended {out}"))
             elif not any(td.get("type") == "add_event" and td.get("event", {}).get("value", {}).get("uid") == uid for td in ticks):
+                if yielding and getattr(hd, "status", None) == "completed":
+                    # with a suspending store the service's "is the handler still running?" read can be older than the
+                    # run's completion: an unrelated event accepted for a run that has just finished has nobody to go to
+                    continue
                 if getattr(hd, "status", None) != "completed" or True:
                     v.append(("sent_event_never_processed", {**w, "after_busy_release": released_busy, "unrelated_event": True},
                               f"{desc}: event D#{uid} accepted at t={t_sent} is not in the tick log (handler {getattr(hd, 'status', None)})"))
@@ -299,6 +325,10 @@ def programs(tier: str) -> list[Program]:
     for backend in (("memory",) if q else ("memory", "sqlite")):
         ps.append(Program(f"in_process/wait1/{backend}/yielding_store", {"workflow": "wait1", "backend": backend, "yielding": True},
                           (lambda ex, backend=backend: execute(ex, "wait1", backend, 2.0, True)), max_dev=(3 if q else 4)))
+    # ... and with several independent senders: three parties can meet at the per-run reload lock while one of them is
+    # suspended inside it (releaser on its store read, a sender queued behind it, another sender arriving later)
+    ps.append(Program("in_process/wait1_two_senders/memory/yielding_store", {"workflow": "wait1_two_senders", "backend": "memory", "yielding": True},
+                      (lambda ex: execute(ex, "wait1_two_senders", "memory", 2.0, True)), max_dev=(3 if q else 5)))
     for n in (1, 2):
         for crash in (False, True):
             ps.append(Program(f"dbos_two_replicas/waits={n}/releaser_crashes={crash}", {"waits": n, "crash": crash},
